@@ -173,7 +173,7 @@ def run(chk):
     # (B1, DTLS 1.3, server flight in several datagrams) spec/Handshake13F.tla: selective acknowledgement and retransmission;
     # false acknowledgements (AckSound) lose data for good, so that predicate is judged here too
     hsreplay13f.liveness(chk)
-    s13f = hsreplay13f.generate(chk, limit=12000 if chk.quick else 150000)
+    s13f = hsreplay13f.generate(chk, limit=12000 if chk.quick else 60000)
     rows, summ = hsreplay13f.replay(chk, binary, s13f)
     ninc = 0
     for r in rows:
